@@ -27,6 +27,7 @@ class RLRun:
         self.log = EventLog()
         self.stats = Counter()
         self.policy_calls = []     # (thread, action)
+        self.policy_q = []         # estimates at the time of each policy call
         self.learn_calls = []      # (thread, action, reward, Q before, counts before, Q after, counts after)
         self.reward_calls = []     # (best_loss arg, curr_best before, reward, curr_best after)
         self.executed = []         # (session, batch_id, pos, cls, agent_chosen, best_before, best_after)
@@ -47,7 +48,9 @@ class RLRun:
         run = self
 
         def policy(self_a, state):
+            q0 = list(getattr(self_a, "Q", []))
             out = orig(self_a, state)
+            run.policy_q.append(q0)
             run.policy_calls.append((run.baton.current.name, int(out)))
             run.log.add("policy", run.baton.current.name, int(out))
             return out
